@@ -20,6 +20,13 @@ Translated (fail-closed -- any statement / expression outside the small subset b
                         Channel._window_adjust         (out_window_size += nbytes)
                         Channel._feed_extended         (the discard test; whether the discard branch
                                                         credits len(s) through _check_add_window)
+                        Channel.set_combine_stderr     (shape: moves the stderr buffer, no window field)
+                        Channel.shutdown/_send_eof/shutdown_write (shape: half-close only sets eof_sent)
+                        Channel.__init__               (the six flow-control fields start at 0)
+* paramiko/*.py         FLOW_SITES: the exact set of functions that assign in_window_sofar / in_window_threshold /
+                        in_window_size / out_window_size / out_max_packet_size or mention _check_add_window /
+                        _wait_for_send_window / _send / _set_window / _set_remote_channel; any other writer or
+                        caller aborts (the model has no step for it)
 
 Statement subset: `x = e`, `x op= e`, `if c: <assignments>` (no else), `if c: return e`, `return e`,
 log-only statements (`self._log(..)`, `if self.ultra_debug: self._log(..)`) are skipped.
@@ -310,7 +317,66 @@ def _credit_call(stmts, lenof):
     return None
 
 
+# every function of the package that writes a flow-control field or calls a flow-control primitive;
+# a new writer / caller anywhere in paramiko/*.py aborts the run (the model has no step for it)
+FLOW_SITES = {
+    ("store", "in_window_sofar"): {"Channel.__init__", "Channel._set_window", "Channel._check_add_window"},
+    ("store", "in_window_threshold"): {"Channel.__init__", "Channel._set_window"},
+    ("store", "in_window_size"): {"Channel.__init__", "Channel._set_window"},
+    ("store", "out_window_size"): {"Channel.__init__", "Channel._set_remote_channel", "Channel._window_adjust",
+                                   "Channel._wait_for_send_window"},
+    ("store", "out_max_packet_size"): {"Channel.__init__", "Channel._set_remote_channel"},
+    ("call", "_check_add_window"): {"Channel.recv", "Channel.recv_stderr", "Channel._feed_extended"},
+    ("call", "_wait_for_send_window"): {"Channel._send"},
+    ("call", "_send"): {"Channel.send", "Channel.send_stderr"},
+    ("call", "_set_window"): {"Transport.open_channel", "Transport._parse_channel_open"},
+    ("call", "_set_remote_channel"): {"Transport._parse_channel_open_success", "Transport._parse_channel_open"},
+}
+
+
+def _flow_sites(repo):
+    found = {k: set() for k in FLOW_SITES}
+    pdir = os.path.join(repo, "paramiko")
+    for fn in sorted(os.listdir(pdir)):
+        if not fn.endswith(".py"):
+            continue
+        tree = _parse(repo, "paramiko/" + fn)
+
+        def walk(node, scope):
+            for ch in ast.iter_child_nodes(node):
+                sc = scope
+                if isinstance(ch, (ast.ClassDef, ast.FunctionDef, ast.AsyncFunctionDef)):
+                    sc = scope + [ch.name]
+                if isinstance(ch, ast.Attribute):
+                    where = ".".join(scope[:2]) if scope else "<module %s>" % fn
+                    if isinstance(ch.ctx, (ast.Store, ast.Del)) and ("store", ch.attr) in found:
+                        found[("store", ch.attr)].add(where)
+                    if isinstance(ch.ctx, ast.Load) and ("call", ch.attr) in found:
+                        # any mention (call, alias, table entry) of the primitive counts as a use
+                        found[("call", ch.attr)].add(where)
+                if isinstance(ch, ast.Constant) and isinstance(ch.value, str) and scope:
+                    # setattr(self, "in_window_sofar", ..) style access
+                    for k in found:
+                        if k[0] == "store" and ch.value == k[1]:
+                            found[k].add(".".join(scope[:2]) + " (string)")
+                walk(ch, sc)
+        walk(tree, [])
+    for k, exp in FLOW_SITES.items():
+        if found[k] != exp:
+            raise Unrecognised("functions that %s %s changed: unexpected %s, missing %s" % (
+                "assign" if k[0] == "store" else "use", k[1], sorted(found[k] - exp), sorted(exp - found[k])))
+    return found
+
+
+SET_COMBINE_BODY = [
+    "old = self.combine_stderr",
+    "self.combine_stderr = combine",
+    "if combine and (not old):\n    data = self.in_stderr_buffer.empty()\n    if len(data) > 0:\n        self._feed(data)",
+]
+
+
 def generate(repo):
+    _flow_sites(repo)
     out = []
     w = out.append
     w("(* GENERATED by gen/c19.py from paramiko/{common,util,transport,channel}.py -- do not edit.")
@@ -517,6 +583,43 @@ def generate(repo):
     w("(* recv / recv_stderr: ack = _check_add_window(len(out)); `if ack > 0:` send WINDOW_ADJUST(ack) *)")
     w("Definition adjust_is_sent (ack : Z) : bool := %s." % tests[0])
     w("")
+
+    # Channel.__init__: all flow-control fields start at 0
+    fn = _find_fn(ccls.body, "__init__")
+    zero = set()
+    for st in fn.body:
+        if (isinstance(st, ast.Assign) and len(st.targets) == 1 and _is_self_attr(st.targets[0])
+                and st.targets[0].attr in ("in_window_size", "out_window_size", "in_max_packet_size",
+                                           "out_max_packet_size", "in_window_threshold", "in_window_sofar")):
+            if not (isinstance(st.value, ast.Constant) and st.value.value == 0):
+                raise Unrecognised("Channel.__init__: %s" % ast.unparse(st))
+            zero.add(st.targets[0].attr)
+    if len(zero) != 6:
+        raise Unrecognised("Channel.__init__ does not zero all flow-control fields: %s" % sorted(zero))
+
+    # set_combine_stderr: moves the unread stderr buffer into the stdout buffer, touches no window field
+    fn = _find_fn(ccls.body, "set_combine_stderr")
+    pre, locked, post = _locked_body(fn)
+    if pre or [ast.unparse(x) for x in post] != ["return old"] or [ast.unparse(x) for x in locked] != SET_COMBINE_BODY:
+        raise Unrecognised("set_combine_stderr shape changed: " + ast.unparse(fn))
+    w("(* set_combine_stderr(combine): `if combine and not old:` the stderr buffer is emptied into in_buffer *)")
+    w("Definition combine_moves (combine old : bool) : bool := combine && negb old.")
+    w("")
+
+    # shutdown(how) / _send_eof: half-close sets eof_sent only (and eof_received only for how in (0, 2))
+    fn = _find_fn(ccls.body, "_send_eof")
+    body = [ast.unparse(x) for x in _strip_doc(fn.body) if not Tr.is_log(x)]
+    if body != ["if self.eof_sent:\n    return None", "m = Message()", "m.add_byte(cMSG_CHANNEL_EOF)",
+                "m.add_int(self.remote_chanid)", "self.eof_sent = True", "return m"]:
+        raise Unrecognised("_send_eof shape changed: " + ast.unparse(fn))
+    fn = _find_fn(ccls.body, "shutdown")
+    body = _strip_doc(fn.body)
+    if not (len(body) == 2 and ast.unparse(body[0]) == "if how == 0 or how == 2:\n    self.eof_received = 1"
+            and ast.unparse(body[1].test) == "how == 1 or how == 2"
+            and "m = self._send_eof()" in ast.unparse(body[1])):
+        raise Unrecognised("shutdown shape changed: " + ast.unparse(fn))
+    if ast.unparse(_strip_doc(_find_fn(ccls.body, "shutdown_write").body)[0]) != "self.shutdown(1)":
+        raise Unrecognised("shutdown_write shape changed")
 
     # _feed_extended
     fn = _find_fn(ccls.body, "_feed_extended")
